@@ -210,16 +210,15 @@ GTF_ITEMS = [
     ('per channel: the channel\'s events of every group, in brightness order', 'PCH = [PO2[:, MCH] for PO2 in POPS]'),
     ('one statistic per group', 'SV = [statistic_fxn(PO3, **statistic_params) for PO3 in PCH]'),
     ('... as an array', 'SV = np.array(SV)'),
-    ('selection works on a fresh list of the channel populations', 'SM = selection_fxn([PO4 for PO4 in PCH], **selection_params)'),
-    ('without a selection function every group is selected', 'SM = np.ones(NC, dtype=bool)'),
+    ('selection works on a fresh list of the channel populations; without a selection function every group is selected',
+     'SM = selection_fxn([PO4 for PO4 in PCH], **selection_params) if selection_fxn is not None else np.ones(NC, dtype=bool)'),
     ('groups whose value for THIS channel is unknown are excluded', 'SM = np.logical_and(SM, ~np.isnan(MVC))'),
     ('selected RFI values', 'SRFI = SV[SM]'),
     ('selected MEF values, by the same mask', 'SMEF = MVC[SM]'),
     ('fit on the selected pairs of this channel', 'FO = fitting_fxn(SRFI, SMEF, **fitting_params)'),
-    ('labels reported as computed', "CR['labels'] = LABELS"),
-    ('statistics reported per channel', "SR['values'] = SVR"),
-    ('selected RFI reported per channel', "SELR['rfi'] = SRR"),
-    ('selected MEF reported per channel', "SELR['mef'] = SMR"),
+    ('labels reported as computed', "CR = {'labels': LABELS}"),
+    ('statistics reported per channel', "SR = {'values': SVR}"),
+    ('selected RFI and MEF reported per channel', "SELR = {'rfi': SRR, 'mef': SMR}"),
 ]
 GTF_METAS = {m: m for m in ['NC', 'LABELS', 'UL', 'POPS', 'LI', 'PD', 'PSI', 'PI', 'PCH', 'MCH', 'SV', 'SM', 'MVC', 'SRFI', 'SMEF', 'FO',
                             'CR', 'SR', 'SVR', 'SELR', 'SRR', 'SMR']}
